@@ -178,8 +178,21 @@ func isTrivial(f *ssa.Function) bool {
 		return false
 	}
 	for _, in := range f.Blocks[0].Instrs {
-		switch in.(type) {
+		switch i := in.(type) {
 		case *ssa.FieldAddr, *ssa.Field, *ssa.UnOp, *ssa.Return, *ssa.DebugRef, *ssa.ChangeType, *ssa.Convert, *ssa.BinOp, *ssa.MakeInterface:
+		case *ssa.Alloc:
+			// a value receiver or parameter spilled to a local cell
+			if _, isArr := ptrElem(i.Type()).Underlying().(*types.Array); isArr {
+				return false
+			}
+		case *ssa.Store:
+			al, ok := i.Addr.(*ssa.Alloc)
+			if !ok || al.Parent() != f {
+				return false
+			}
+			if _, isParam := i.Val.(*ssa.Parameter); !isParam {
+				return false
+			}
 		default:
 			return false
 		}
@@ -450,6 +463,28 @@ func (fr *frame) loopEnv(li *loopInfo, st *State, phis map[*ssa.Phi]Term) *Env {
 			}
 			return CVal{}, false
 		}
+		if name == "$outer" {
+			// the index of the enclosing range loop ($i of the innermost loop that contains this one)
+			var best *loopInfo
+			for _, other := range fr.loops {
+				if other == li || !other.blocks[li.header] || len(other.blocks) <= len(li.blocks) {
+					continue
+				}
+				if best == nil || len(other.blocks) < len(best.blocks) {
+					best = other
+				}
+			}
+			if best != nil {
+				for _, in := range best.header.Instrs {
+					if phi, ok := in.(*ssa.Phi); ok && phi.Comment == "rangeindex" {
+						if v, ok := fr.vals[phi].(Term); ok {
+							return CVal{Term{"(+ " + v.S + " 1)", SInt}, types.Typ[types.Int]}, true
+						}
+					}
+				}
+			}
+			return CVal{}, false
+		}
 		if name == "$vis" {
 			for _, in := range li.header.Instrs {
 				if nx, ok := in.(*ssa.Next); ok {
@@ -512,6 +547,48 @@ func (fr *frame) lookupVar(name string, at *ssa.BasicBlock) (CVal, bool) {
 			}
 		}
 		return CVal{}, false
+	}
+	v := fr.val(best)
+	if t, ok := v.(Term); ok {
+		return CVal{t, withReg(best.Type(), fr.fc.e.regionOf(best))}, true
+	}
+	return CVal{}, false
+}
+
+// lookupVarAt finds the SSA value of source variable `name` as seen by an instruction of block at
+// (values bound in dominating blocks or earlier in at itself).
+func (fr *frame) lookupVarAt(name string, at *ssa.BasicBlock) (CVal, bool) {
+	bestDepth, bestIdx := -1, -1
+	var best ssa.Value
+	consider := func(b *ssa.BasicBlock, idx int, v ssa.Value) {
+		if b != at && !b.Dominates(at) {
+			return
+		}
+		if _, done := fr.vals[v]; !done {
+			if _, isC := v.(*ssa.Const); !isC {
+				return // not executed yet
+			}
+		}
+		d := fr.depth[b]
+		if d > bestDepth || (d == bestDepth && idx > bestIdx) {
+			bestDepth, bestIdx, best = d, idx, v
+		}
+	}
+	for _, dr := range fr.debug[name] {
+		if dr.addr {
+			continue
+		}
+		consider(dr.block, dr.idx, dr.val)
+	}
+	for _, b := range fr.fn.Blocks {
+		for i, in := range b.Instrs {
+			if phi, ok := in.(*ssa.Phi); ok && phi.Comment == name {
+				consider(b, i, phi)
+			}
+		}
+	}
+	if best == nil {
+		return fr.lookupVar(name, at)
 	}
 	v := fr.val(best)
 	if t, ok := v.(Term); ok {
